@@ -47,6 +47,8 @@ def default_call(name, args):
         return bool(U8_PRED[last](args[0])) if args[0] < 0x80 else None
     if last in ("eq", "ne") and len(args) == 2 and all(isinstance(a, int) for a in args):
         return (args[0] == args[1]) == (last == "eq")
+    if last in ("from", "into") and len(args) == 1 and isinstance(args[0], int) and not isinstance(args[0], bool) and "convert" in name:
+        return args[0]      # lossless integer widening (`usize::from(b)`)
     return None
 
 
@@ -285,6 +287,12 @@ def run(body, start_bb, env, call=None, max_steps=400, prog=None, depth=0, inlin
             if pc_ is not None and pc_[0] in prog.adts and prog.adts[pc_[0]]["kind"] == "struct" \
                     and [f["name"] for f in prog.adts[pc_[0]]["variants"][0]["fields"]] == [f for f, _ in pc_[1]]:
                 return ("variant", pc_[0].split("::")[-1], [Sym("str:" + v) if isinstance(v, str) else v for _, v in pc_[1]], 0, tuple(f for f, _ in pc_[1]), pc_[0])
+            if isinstance(c.get("bytes"), list) and c.get("static"):
+                # `&TABLE` for an immutable pointer-free static: a lookup table of byte-sized entries (u8 / bool / fieldless enum), one per byte
+                return ("array", [int(x) for x in c["bytes"]])
+            if isinstance(c.get("bytes"), list) and 1 <= len(c["bytes"]) <= 8 and not c.get("strs"):
+                # a promoted reference to a small scalar (`&Kind::Start`, `&7u16`): its little-endian value
+                return int.from_bytes(bytes(c["bytes"]), "little")
             if isinstance(c.get("strs"), list):
                 items_ = list(c["strs"])
                 tinfo_ = prog.ty(c["ty"]) if prog is not None and isinstance(c.get("ty"), int) else None
@@ -399,7 +407,9 @@ def run(body, start_bb, env, call=None, max_steps=400, prog=None, depth=0, inlin
                     raise Unrecognised("unop %s on %r" % (rv["op"], a))
             elif k == "discr":
                 pv = place_val(rv["place"])
-                if isinstance(pv, tuple) and pv[0] == "variant" and len(pv) > 3:
+                if isinstance(pv, int) and not isinstance(pv, bool):
+                    v = pv       # a fieldless enum read from a table or a promoted constant: the stored byte is its discriminant
+                elif isinstance(pv, tuple) and pv[0] == "variant" and len(pv) > 3:
                     v = pv[3]
                 elif isinstance(pv, tuple) and pv[0] == "variant":
                     v = ("discr-of", pv[1])
